@@ -1,18 +1,24 @@
 """C12 - positioning survives DFXP round trips and maps faithfully to WebVTT settings.
 
 Streams
-  A  WebVTTWriter._convert_positioning on layouts x relativize x fit x video sizes: model vtt_convert_positioning (1305);
-     oracle ok_vtt_arith (1310) on the layout the settings are computed from: align omitted iff center,
-     position = x + left padding, line = y + top padding, size = width - horizontal paddings, all percentages.
-  B  WebVTTWriter end to end: captions whose text nodes carry different layouts -> one cue per maximal run of equal
-     layouts, same timing line, the run's words in its cue, settings as in A (model vtt_caption 1308);
-     cue settings read from a WebVTT document are written back verbatim (read -> write, every writer configuration).
+  A  cue settings of one-caption sets through the PUBLIC WebVTTWriter.write (layouts x relativize x fit x video sizes):
+     model vtt_convert_positioning (1305); oracle ok_vtt_arith (1310) on the layout the settings are computed from:
+     align omitted iff center, position = x + left padding, line = y + top padding, size = width - horizontal paddings,
+     all percentages.  Layouts without an origin / not resolvable to percentages and refusals: counted (C13).
+  B  WebVTTWriter end to end: one distinct timing line per caption, equal to its times; one cue per maximal run of equal
+     node-level layouts (own layout, else the enclosing style span's) with the run's words; every cue's settings judged by
+     1310; model vtt_caption (1308).  Captions with a text node that has no node-level layout: counted, not tied.
+     Cue settings read from a WebVTT document are written back verbatim (read -> write, every writer configuration,
+     mixed-case and tab-separated settings).
   C  DFXP write -> read: every visible word keeps its effective layout (node > caption > language; absent parts ->
-     start / after; values as two-decimal percentages), for layouts at every level subset, equal layouts shared between
-     places, near-equal layouts, x relativize x fit.  Expected = Coq expected_effective (1200/1201) over the layouts
-     transformed by the verified dfxp_transform (1306); correspondence with the model's choice+attributes+reader (1202).
-     Known finding #19 shape (bare TEXT node whose layout differs from its caption's) is generated and reported under its
-     own kind.
+     start / after; values within 1/200 of the exact transformed ones).  Random sets (levels subsets, shared / near-equal
+     layouts, spans with / without layout, text inside a span without own layout, BREAK nodes with layouts, unbalanced
+     style nodes, set-level layouts, absolute units with relativize off, Padding with omitted parts) and exhaustive grids:
+     language x caption x span layouts incl. the DFXP default and an empty Alignment at every level x nesting depth;
+     all 6x4 alignment pairs at 3 levels; all 16 masks of omitted padding parts; 14 layouts in one set; set-level cases.
+     Expected = Coq ok_effective (1201) over the layouts transformed by dfxp_transform (1306); the tree model
+     (DfxpTree.v, request 1210) is compared word by word.  Known-finding kinds are assigned only when the observed
+     layout is exactly the recorded failure (the layout of the element the writer puts the word in = the model's).
 """
 import re
 from fractions import Fraction
@@ -86,6 +92,19 @@ def same_out(model, s, printed):
 
 
 # ------------------------------------------------------------------------------------------------ A
+def settings_via_write(lay, rel, fit, w, h):
+    """cue settings of a one-caption set whose caption carries `lay`, through the PUBLIC WebVTTWriter.write"""
+    from pycaption import CaptionSet, CaptionList, Caption, CaptionNode
+    cs = CaptionSet({"en-US": CaptionList([Caption(2000000, 3500000, [CaptionNode.create_text("word")], layout_info=lay)])})
+    r = impl.call(lambda: WebVTTWriter(relativize=rel, fit_to_screen=fit, video_width=w, video_height=h).write(cs))
+    if isinstance(r, Err):
+        return r
+    cues = vtt_cues(r.v)
+    if len(cues) != 1:
+        return Err(109)
+    return Ok(cues[0][1])
+
+
 def stream_settings(ctx, res, printed):
     rng = ctx.rng
     cases = []
@@ -113,30 +132,37 @@ def stream_settings(ctx, res, printed):
     obs, reqs_m, reqs_t = [], [], []
     for l, rel, fit, (w, h) in cases:
         lay = geom.mk_layout(l)
-        wr = WebVTTWriter(relativize=rel, fit_to_screen=fit, video_width=w, video_height=h)
-        obs.append(impl.call(lambda: wr._convert_positioning(lay)))
+        obs.append(settings_via_write(lay, rel, fit, w, h))
         wl = geom.w_layout(lay)
         reqs_m.append((1305, [[rel, fit, oq(w), oq(h)], Some(wl)]))
         reqs_t.append((1302, [rel, fit, oq(w), oq(h), wl]))
     models = oracle_batch(reqs_m)
     trans = oracle_batch(reqs_t)
     ok_reqs, ok_idx = [], []
+    outside = 0
+    refused = 0
     for i, ((l, rel, fit, (w, h)), o, m, t) in enumerate(zip(cases, obs, models, trans)):
         res["evaluations"] += 1
         mm = r_result(m)
         base = {"replay": "settings", "input": [l, rel, fit, w, h]}
         if isinstance(o, Err) or isinstance(mm, Err):
-            if not (isinstance(o, Err) and isinstance(mm, Err) and o.code == mm.code):
-                res["disagreements"].append(dict(base, stream="settings", impl=repr(o), model=repr(mm)))
+            refused += 1         # refusal / error class: C13's business - counted
+            continue
+        # property oracle (and the tie to the model): percentage layout with an origin, or raw settings (verbatim);
+        # layouts without an origin / not resolvable to percentages are outside the statement: counted
+        tl = r_result(t, geom.r_layout)
+        in_domain = not (isinstance(tl, Err) or tl.v[0] is None or not all(s[1] == 2 for part in tl.v[:3] if part for s in part)) \
+            and (rel or all(s[1] == 2 for part in l[:3] if part for s in part if s is not None))
+        if l[4]:
+            if o.v != " " + l[4]:
+                res["violations"].append(dict(base, kind="vtt-verbatim", impl_obs=o.v,
+                                              what=f"raw cue settings {l[4]!r} of the caption's layout were written as {o.v!r}"))
+            continue
+        if not in_domain:
+            outside += 1
             continue
         if not same_out(mm.v, o.v, printed):
             res["disagreements"].append(dict(base, stream="settings", impl=o.v, model=repr(mm.v)))
-        # property oracle: percentage layout with an origin, no raw settings
-        tl = r_result(t, geom.r_layout)
-        if l[4] or isinstance(tl, Err) or tl.v[0] is None or not all(s[1] == 2 for part in tl.v[:3] if part for s in part):
-            continue
-        if not rel and not all(s[1] == 2 for part in l[:3] if part for s in part):
-            continue
         d = parse_settings(o.v)
         try:
             ws = settings_wire(d)
@@ -157,6 +183,8 @@ def stream_settings(ctx, res, printed):
                                               f"size = width - left - right padding"})
     res["distribution"]["settings_cases"] = len(cases)
     res["distribution"]["settings_arithmetic_checked"] = len(ok_idx)
+    res["distribution"]["settings_cases_outside_the_statement(no origin / not resolvable to percentages: counted)"] = outside
+    res["distribution"]["settings_cases_refused_or_raising(C13: counted)"] = refused
 
 
 # ------------------------------------------------------------------------------------------------ B
@@ -182,17 +210,48 @@ def geo(l):
     return None if l is None else geom.float_layout(posgen.tup(l))[:4]
 
 
-def spec_runs(nodes):
-    """statement: maximal runs of text nodes with equal layouts -> [(layout, [words])] (all text layouts present)"""
+def spec_runs(nodes, own_only=False):
+    """statement: maximal runs of text nodes with equal node-level layouts -> [(layout, [words])].
+    node level (DESIGN 7.0 ix, the same reading as on the DFXP side): the text node's own layout, else the layout of the
+    nearest enclosing STYLE span; own_only: what WebVTTWriter looks at (the text node's own layout only)"""
+    levels = posgen.node_levels(nodes)
     runs = []
-    for n in nodes:
+    for i, n in enumerate(nodes):
         if n[0] != "text":
             continue
-        if runs and geo(runs[-1][0]) == geo(n[-1]):
-            runs[-1] = (n[-1], runs[-1][1] + [n[1]])
+        lay = n[-1] if own_only else (None if levels[i] is None else nodes[levels[i]][-1])
+        if runs and geo(runs[-1][0]) == geo(lay):
+            runs[-1] = (lay, runs[-1][1] + [n[1]])
         else:
-            runs.append((n[-1], [n[1]]))
+            runs.append((lay, [n[1]]))
     return runs
+
+
+def first_truthy_layout(*ls):
+    for l in ls:
+        if l is not None and (posgen.has_parts(l) or bool(posgen.tup(l)[4])):
+            return l
+    return None
+
+
+def timing_of(k):
+    """the timing line of the k-th caption built by posgen.build"""
+    def ts(us):
+        ms = us // 1000
+        return f"{(ms // 60000) % 60:02}:{(ms // 1000) % 60:02}.{ms % 1000:03}"
+    return f"{ts((k + 1) * 2000000)} --> {ts((k + 1) * 2000000 + 1500000)}"
+
+
+def runs_match(runs, mine):
+    if len(mine) != len(runs):
+        return False
+    for (lay, words), cu in zip(runs, mine):
+        if not all(wd in cu[2] for wd in words):
+            return False
+        other = [wd for r2 in runs if r2[1] is not words for wd in r2[1]]
+        if any(wd in cu[2] for wd in other):
+            return False
+    return True
 
 
 def check_vtt_case(acs, cfg, res, printed, stats):
@@ -204,63 +263,112 @@ def check_vtt_case(acs, cfg, res, printed, stats):
     rs = oracle_batch([(1308, [posgen.w_cfg(cfg), posgen.w_optlayout(lg["layout"]), posgen.w_ncap(c)]) for c in lg["caps"]])
     ms = [r_result(r) for r in rs]
     base = {"replay": "vtt", "cfg": list(cfg), "input": acs}
-    if isinstance(out, Err):
-        if not any(isinstance(x, Err) and x.code == out.code for x in ms):
-            res["disagreements"].append(dict(base, stream="vtt", impl=repr(out), model=repr(ms)[:300]))
-        return
-    if any(isinstance(x, Err) for x in ms):
-        res["disagreements"].append(dict(base, stream="vtt", impl="document", model=repr(ms)[:300]))
+    if isinstance(out, Err) or any(isinstance(x, Err) for x in ms):
+        stats["refused"] += 1          # refusal / error class is C13's business: counted
         return
     cues = vtt_cues(out.v)
-    # ---- property first: separate cues for different node layouts, same times (cues of a caption = cues with its timing)
+    # ---- property first: cues of a caption = cues carrying its timing line
+    want_t = [timing_of(k) for k in range(len(lg["caps"]))]
     timings = []
     for cu in cues:
         if cu[0] not in timings:
             timings.append(cu[0])
-    by_time = {t: [cu for cu in cues if cu[0] == t] for t in timings}
-    if len(timings) != len(lg["caps"]):
+    if timings != want_t:
         res["violations"].append(dict(base, kind="vtt-cue-times", impl_obs=repr(timings),
-                                      what=f"{len(lg['caps'])} captions were written with {len(timings)} distinct timing lines"))
+                                      what=f"timing lines {timings!r}: not one distinct timing {want_t!r} per caption, in order"))
         return
-    for c, t in zip(lg["caps"], timings):
+    by_time = {t: [cu for cu in cues if cu[0] == t] for t in timings}
+    settings_todo = []
+    for ci, (c, t) in enumerate(zip(lg["caps"], timings)):
         mine = by_time[t]
-        texts = [n for n in c["nodes"] if n[0] == "text"]
-        if any(n[-1] is None or not any(x is not None for x in posgen.tup(n[-1])[:4]) for n in texts):
-            stats["mixed"] += 1
+        levels = posgen.node_levels(c["nodes"])
+        texts = [i for i, n in enumerate(c["nodes"]) if n[0] == "text"]
+        if any(levels[i] is None for i in texts) and not all(levels[i] is None for i in texts):
+            stats["mixed"] += 1    # some (not all) text nodes have no node-level layout: the statement leaves open how they group
             continue
+        # (no text node has a node-level layout: one cue, positioned by the caption's, else the language's layout)
+        # a text node that takes its layout from the enclosing STYLE span (own layout absent): WebVTTWriter looks at the
+        # text node's own layout only.  Known finding C12-vtt-span-layout-ignored - assigned only when the output is exactly
+        # what that behaviour gives (= the model's cues for this caption)
+        span_derived = any(levels[i] != i for i in texts)
+        as_model = len(mine) == len(ms[ci].v) and all(same_out(mo, cu[1], printed) for mo, cu in zip(ms[ci].v, mine))
         runs = spec_runs(c["nodes"])
-        good = len(mine) == len(runs)
-        if good:
-            for (lay, words), cu in zip(runs, mine):
-                if not all(wd in cu[2] for wd in words):
-                    good = False
-                other = [wd for r2 in runs if r2[1] is not words for wd in r2[1]]
-                if any(wd in cu[2] for wd in other):
-                    good = False
         if len(runs) > 1:
             stats["split"] += 1
             res["nontrivial"].add(("vtt-split", repr(c), rel, fit))
-        if not good:
+        if not runs_match(runs, mine):
+            if span_derived and as_model:
+                res["violations"].append(dict(base, kind="vtt-cue-splitting-span-layout", shape="span-layout", impl_obs=repr(mine),
+                                              what=f"a text node whose layout comes from its enclosing style span is not given a cue of its "
+                                                   f"own: {len(mine)} cue(s) for {len(runs)} runs of node-level layouts"))
+                stats["span"] += 1
+                continue
             res["violations"].append(dict(base, kind="vtt-cue-splitting", impl_obs=repr(mine),
                                           what=f"caption with text-node layouts in {len(runs)} runs was written as "
                                                f"{len(mine)} cue(s) {[(cu[0], cu[2]) for cu in mine]!r}: not one cue per run of "
                                                f"equal layouts with the same times"))
             return
-    # ---- correspondence with the model
+        # per-cue settings against the property oracle (1310), for runs whose layout resolves to percentages with an origin
+        for (lay, words), cu in zip(runs, mine):
+            eff = first_truthy_layout(lay, c["layout"], lg["layout"])
+            if eff is not None:
+                settings_todo.append((posgen.tup(eff), cu, span_derived and as_model))
+    oq_ = oq
+    trans = oracle_batch([(1302, [rel, fit, oq_(w), oq_(h), geom.a_layout_w(geom.float_layout(l))]) for l, _, _ in settings_todo])
+    ok_reqs, ok_cues = [], []
+    for (l, cu, known), t in zip(settings_todo, trans):
+        tl = r_result(t, geom.r_layout)
+        if l[4] or isinstance(tl, Err) or tl.v[0] is None or not all(x[1] == 2 for part in tl.v[:3] if part for x in part):
+            continue
+        if not rel and not all(x[1] == 2 for part in l[:3] if part for x in part if x is not None):
+            continue
+        try:
+            ws = settings_wire(parse_settings(cu[1]))
+        except (ValueError, TypeError):
+            res["violations"].append(dict(base, kind="vtt-settings-malformed", impl_obs=cu[1],
+                                          what=f"cue settings {cu[1]!r}: not align/position/line/size as percentages"))
+            return
+        ok_reqs.append((1310, [geom.a_layout_w(tl.v), ws]))
+        ok_cues.append((l, cu, known))
+    for (l, cu, known), ok in zip(ok_cues, oracle_batch(ok_reqs)):
+        stats["cue_settings"] += 1
+        if ok != 1:
+            if known:
+                res["violations"].append(dict(base, kind="vtt-cue-splitting-span-layout", shape="span-layout", impl_obs=cu[1],
+                                              what=f"the cue {cu[2]!r} of a text node whose layout comes from its enclosing style span "
+                                                   f"carries the settings {cu[1]!r} of another level"))
+                stats["span"] += 1
+                continue
+            res["violations"].append(dict(base, kind="vtt-settings-arithmetic", impl_obs=cu[1],
+                                          what=f"cue {cu[2]!r} of a caption written with settings {cu[1]!r} for layout {l!r}: not align "
+                                               f"(omitted iff center) / position = x + left padding / line = y + top padding / size = width "
+                                               f"- left - right padding"))
+            return
+    # ---- correspondence with the model (captions whose grouping the statement leaves open are not tied)
     k = 0
     for c, m in zip(lg["caps"], ms):
         mine = cues[k:k + len(m.v)]
         k += len(m.v)
+        levels = posgen.node_levels(c["nodes"])
+        tl_ = [levels[i] is None for i, n in enumerate(c["nodes"]) if n[0] == "text"]
+        if any(tl_) and not all(tl_):
+            k = None
+            break
         if len(mine) != len(m.v) or not all(same_out(mo, cu[1], printed) for mo, cu in zip(m.v, mine)):
             res["disagreements"].append(dict(base, stream="vtt", impl=repr(mine), model=repr(m.v)[:400]))
             return
-    if k != len(cues):
+    if k is not None and k != len(cues):
         res["disagreements"].append(dict(base, stream="vtt", impl=repr(cues)[:300], model="cue count %d" % k))
 
 
 def stream_vtt(ctx, res, printed):
     rng = ctx.rng
-    stats = {"split": 0, "mixed": 0}
+    stats = {"split": 0, "mixed": 0, "refused": 0, "span": 0, "cue_settings": 0}
+    # deterministic shape of the known finding C12-vtt-span-layout-ignored
+    S, C = posgen.PCT_LAYOUTS["S"], posgen.PCT_LAYOUTS["C"]
+    acs = {"global": None, "langs": [{"name": "en-US", "layout": None, "caps": [{"layout": C, "nodes": [
+        ["text", "aa0", C], ["break", None], ["style", True, S], ["text", "bb1", None], ["style", False, S]]}]}]}
+    check_vtt_case(acs, (False, False, None, None), res, printed, stats)
     for i in range(ctx.n(350, 10000)):
         rel = rng.random() < 0.6
         fit = rng.random() < 0.3
@@ -268,11 +376,15 @@ def stream_vtt(ctx, res, printed):
         units = (2,) if rng.random() < 0.7 or not rel else (0, 2)
         pool = [posgen.gen_layout(rng, units, p_none=0.25) for _ in range(3)]
         acs = posgen.gen_capset(rng, units, nlangs=(1, 1), ncaps=(1, 3), levels=("lang", "cap", "node"), pool=pool,
-                                bare_text_layouts=True, span_layouts=(i % 2 == 0))
+                                bare_text_layouts=True, span_layouts=(i % 2 == 0), break_layouts=True,
+                                span_text_none=(i % 4 == 0))
         check_vtt_case(acs, (rel, fit, w, h), res, printed, stats)
     n_split, excluded_mixed = stats["split"], stats["mixed"]
     res["distribution"]["vtt_captions_split_into_several_cues"] = n_split
-    res["distribution"]["vtt_captions_with_some_text_node_without_layout(excluded from the splitting oracle)"] = excluded_mixed
+    res["distribution"]["vtt_captions_with_some_text_node_without_layout(excluded from the splitting oracle and from the model tie)"] = excluded_mixed
+    res["distribution"]["vtt_documents_refused_or_raising(C13: counted)"] = stats["refused"]
+    res["distribution"]["vtt_end_to_end_cues_judged_by_the_settings_oracle"] = stats["cue_settings"]
+    res["distribution"]["vtt_captions_with_a_span_layout_not_split(known finding)"] = stats["span"]
     # verbatim cue settings
     SETTINGS = ["align:left", "position:10%,start line:5% size:50%", "line:-1", "vertical:rl align:end", "line:0 position:0%",
                 "size:35% align:right", "position:12.5%", "foo:bar", "align:center", "line:5%,end", "region:r1", "a:b  c:d",
@@ -330,7 +442,10 @@ def near(rng, l):
     i = rng.choice(parts)
     sizes = list(l[i])
     j = rng.randrange(len(sizes))
-    sizes[j] = (sizes[j][0] + rng.choice([0.01, 0.004, 1, 0.5]), sizes[j][1])
+    if sizes[j] is None:
+        sizes[j] = (0.01, 2)
+    else:
+        sizes[j] = (sizes[j][0] + rng.choice([0.01, 0.004, 1, 0.5]), sizes[j][1])
     l[i] = tuple(sizes)
     return tuple(l)
 
@@ -357,7 +472,7 @@ def check_dfxp_case(acs, cfg, res):
     ids = posgen.word_ids(acs)
     words = {v: k for k, v in ids.items()}
     # the tree model: region table, region attributes on div/p/span, nearest-ancestor resolution on read (1210)
-    tm = r_result(oracle_batch([(1210, posgen.w_dset(acs, m.v, ids))])[0])
+    tm = r_result(oracle_batch([(1210, [g, posgen.w_dset(acs, m.v, ids)])])[0])
     model_words = {}
     if isinstance(tm, Ok):
         for rl in tm.v:
@@ -376,22 +491,36 @@ def check_dfxp_case(acs, cfg, res):
                 src = levels[i]
                 node_l = [] if src is None else nodes[src][1]
                 shape = None
-                if src is not None and geo(c["nodes"][src][-1]) != geo(c["layout"]):
-                    ws = wspan[i]
-                    if ws is None:
-                        shape = "bare-text"          # DESIGN section 8 #19: no <span> is written around this text
-                    elif geo(c["nodes"][ws][-1]) != geo(c["nodes"][src][-1]):
-                        shape = "flattened-span"     # nested spans are flattened by the writer
+                ws = wspan[i]
+                if src is not None:
+                    # the element the writer puts the word in: the open <span> (if it carries a layout), else the <p>
+                    carrier = c["nodes"][ws][-1] if ws is not None and posgen.has_parts(c["nodes"][ws][-1]) else c["layout"]
+                    if geo(c["nodes"][src][-1]) != geo(carrier):
+                        # DESIGN section 8 #19 (no <span> around the text) / nested or unclosed spans flattened by the writer
+                        shape = "bare-text" if ws is None else "flattened-span"
                 o = observed.get(n[1], "missing")
                 if o == "missing":
                     res["violations"].append(dict(base, kind="dfxp-word-lost", impl_obs=sorted(observed),
                                                   what=f"the word {n[1]!r} is not a text node after DFXP write+read"))
                     return "viol"
+                set_fallback = wire_truthy(g) and not any(wire_truthy(x) for x in (node_l, cl, ll))
                 reqs_ok.append((1201, [ll, cl, node_l, o]))
-                meta.append((n[1], shape, o))
+                meta.append((n[1], shape, o, set_fallback))
     oks = oracle_batch(reqs_ok)
     bad = None
-    for (word, shape, o), ok in zip(meta, oks):
+    for (word, shape, o, set_fallback), ok in zip(meta, oks):
+        if set_fallback:
+            # node, caption and language level are empty and a set-level layout exists: not one of the statement's levels
+            # (get_positioning_info uses it only when an equal layout has a region) - model tie only
+            SET_FALLBACK[0] += 1
+            ok = 1
+        mw = model_words.get(word)
+        opl = None if o is None else geom.r_layout_plain(o.v)
+        if shape is not None and not (mw is not None and opl is not None
+                                      and close_layout(mw, opl, Fraction(1, 100) + Fraction(1, 10**9))):
+            # the recorded failure is "the text's node-level layout is not written: the word takes the layout of the element
+            # the writer puts it in" (= what the tree model computes); any other outcome on such a word is reported as itself
+            shape = None
         if ok != 1:
             this = dict(base, kind="dfxp-effective-layout" + ("" if shape is None else "-" + shape), shape=shape, word=word,
                         impl_obs=repr(o.v if o is not None else None)[:400],
@@ -429,13 +558,14 @@ def stream_dfxp(ctx, res):
         rel = rng.random() < 0.7
         fit = rng.random() < 0.35
         w, h = rng.choice(DIMS[:2])
-        absolute = rel and rng.random() < 0.2
+        absolute = rng.random() < 0.2          # with relativize off the absolute units are written as they are
         units = (0, 2) if absolute else (2,)
         pool = [posgen.gen_layout(rng, units, p_none=0.3) for _ in range(2)]
         pool.append(near(rng, pool[0]))
         bare = (i % 5 == 0)
         acs = posgen.gen_capset(rng, units, nlangs=(1, 2), ncaps=(1, 3), levels=levels, pool=pool, p_level=0.7,
-                                bare_text_layouts=bare)
+                                bare_text_layouts=bare, break_layouts=(i % 3 == 0), span_text_none=(i % 4 == 1),
+                                unbalanced=(i % 7 == 3), with_global=(i % 6 == 2))
         key = check_dfxp_case(acs, (rel, fit, w, h), res)
         if key == "ok" and levels:
             res["nontrivial"].add(("dfxp", repr(acs), rel, fit))
@@ -443,20 +573,44 @@ def stream_dfxp(ctx, res):
     # exhaustive grid: language x caption x span-with/without-own-layout x nesting depth (seeded reader bug C12_c shape)
     grid = posgen.span_grid()
     gout = {}
-    for acs in grid:
-        for cfg in ((False, False, None, None), (True, True, 640, 360)):
+    ngrid = 0
+    for gi, acs in enumerate(grid):
+        for cfg in ((False, False, None, None), (True, True, 640, 360))[:2 if gi % 3 == 0 else 1]:
             key = check_dfxp_case(acs, cfg, res)
+            ngrid += 1
             gout[key] = gout.get(key, 0) + 1
             if key == "ok":
                 res["nontrivial"].add(("dfxp-grid", repr(acs), cfg))
-    res["distribution"]["dfxp_span_grid_cases"] = 2 * len(grid)
+    res["distribution"]["dfxp_span_grid_sets"] = len(grid)
+    res["distribution"]["dfxp_span_grid_cases"] = ngrid
     res["distribution"]["dfxp_span_grid_outcomes"] = gout
+    extra = {}
+    for name, sets in (("alignment_pairs(6x4 x 3 levels x with/without origin)", posgen.alignment_grid()),
+                       ("padding_omitted_parts(16 masks x 2 levels)", posgen.padding_grid()),
+                       ("fourteen_layouts(r0..r13)", [posgen.many_layouts()]),
+                       ("set_level_layout(alone / equal to a layout with a region / under a language layout)", posgen.set_level_cases())):
+        o = {}
+        for acs in sets:
+            key = check_dfxp_case(acs, (False, False, None, None), res)
+            o[key] = o.get(key, 0) + 1
+        extra[name] = o
+    res["distribution"]["dfxp_exhaustive_grids"] = extra
+    res["distribution"]["dfxp_words_whose_only_layout_is_the_set_level_one(model tie only)"] = SET_FALLBACK[0]
     res["distribution"]["dfxp_outcomes"] = outcomes
     res["distribution"]["dfxp_values_printed_on_the_other_side_of_a_rounding_tie(model vs binary64; both within 1/200)"] = NEAR_TIES[0]
     res["distribution"]["dfxp_level_subsets"] = [list(x) for x in level_sets]
 
 
 NEAR_TIES = [0]
+SET_FALLBACK = [0]
+
+
+def wire_truthy(x):
+    """decoded wire option layout ([] = None, [[o, e, p, a, w]] with optional parts as [] / [v]): Layout.__bool__"""
+    if not x:
+        return False
+    l = x[0]
+    return any(part != [] for part in l[:4]) or (l[4] != [] and bool(l[4][0]))
 
 
 def close_layout(a, b, tol=Fraction(1, 10**9)):
@@ -488,7 +642,8 @@ def run(ctx):
                       {"dfxp": "language origin 10% 10%, caption none, span node origin 50% 50% extent 30% 10%"}]
     res["clauses"] = {
         "theorem": ["WebVTT settings arithmetic (align omitted iff center, position, line, size) for every percentage layout with an origin",
-                    "one cue per maximal run of equal text-node layouts; adjacent cues have different layouts",
+                    "one cue per maximal run of equal text-node layouts on node lists with BREAK / STYLE nodes (C12_vtt_split_by_layout_general)",
+                    "tree level: DFXP write then read gives every word of a caption set of words / breaks / non-nested spans its expected effective layout; nearest ancestor wins",
                     "raw cue settings are passed through verbatim by the writer in every configuration",
                     "effective-layout fallback node > caption > language; region table lookup total and faithful (no collision)",
                     "region attributes printed and read back give the two-decimal layout with defaults start / after"],
@@ -534,7 +689,7 @@ def replay(ctx, rec):
         if tag == "dfxp":
             check_dfxp_case(rec["input"], tuple(rec["cfg"]), res)
         else:
-            check_vtt_case(rec["input"], tuple(rec["cfg"]), res, Printed(), {"split": 0, "mixed": 0})
+            check_vtt_case(rec["input"], tuple(rec["cfg"]), res, Printed(), {"split": 0, "mixed": 0, "refused": 0, "span": 0, "cue_settings": 0})
         same = [v for v in res["violations"] if v.get("kind") == rec.get("kind")]
         return bool(same), (same or [{"what": "ok (other kinds seen: %r)" % [v.get("kind") for v in res["violations"]]}])[0]["what"]
     return False, "unknown replay tag"
